@@ -140,6 +140,26 @@ def check(ctx):
         items.append((4, M.configs_for(4)[i % 4], base * 5 + M.inverse_gates(base) * 4))
         items.append((4, M.configs_for(4)[(i + 1) % 4], base + [("swap", 0, 3), ("swap", 0, 3)] * 20 + [("h", 1), ("h", 1)] * 30))
     run_items(ctx, "n=4: long programs (trace x5, inverse x4; 100 redundant gates appended)", items)
+    # length ladder: the same states reached by programs of 255 .. 4097 gates (around the powers of two)
+    items = []
+    for n in (2, 3, 4, 5, 6):
+        g = B.sg(n)
+        confs = M.configs_for(n)
+        for k, i in enumerate(range(g.N // 3, g.N, max(1, g.N // (3 if quick else 8)))):
+            base = programs.decorated_trace(g, i, (k * 5 + 1) % (1 << n))
+            if not base:
+                continue
+            pad = []
+            for q in range(n):
+                pad += [("s", q), ("h", q), ("sdg", q), ("h", q), ("h", q), ("s", q), ("h", q), ("sdg", q)]     # identity, 8 gates per qubit
+            pad += [("cx", 0, n - 1), ("y", 0), ("cx", 0, n - 1), ("y", 0), ("x", n - 1)] + [("x", n - 1)]        # identity up to phase
+            for target in ([255, 1023, 1025, 2049] if quick else [255, 256, 257, 511, 513, 1023, 1024, 1025, 2047, 2049, 4097]):
+                prog = list(base)
+                while len(prog) + len(pad) <= target:
+                    prog = prog + pad
+                prog = prog + [("id", 0)] * (target - len(prog))
+                items.append((n, confs[(k + target) % len(confs)], prog))
+    run_items(ctx, "length ladder: programs of 255..%d gates (identity paddings with S, Sdg, H, CX, Y around a trace)" % (2049 if quick else 4097), items)
     # n = 5, 6: table graph states and rotated ones, decorated
     for n in (5, 6):
         g = B.sg(n)
